@@ -132,7 +132,7 @@ type Result struct {
 }
 
 func (r *Result) noteSched() {
-	r.SchedTasks, r.SchedPicks, r.SchedDeviated, r.SchedGaveUp = verifhook.SchedTasks, verifhook.SchedPicks, verifhook.SchedDeviated, verifhook.SchedGaveUp
+	r.SchedTasks, r.SchedPicks, r.SchedDeviated, r.SchedGaveUp = verifhook.SchedTasks, verifhook.SchedPicks, verifhook.SchedDeviated+verifhook.SelectDeviated, verifhook.SchedGaveUp
 	r.SchedTrace = append([]string(nil), verifhook.SchedTrace...)
 	if verifhook.TaskPanic != "" && r.Panic == "" {
 		r.Panic = "in a goroutine started by the generator: " + verifhook.TaskPanic
@@ -185,6 +185,12 @@ func RunInProcess(inv Invocation, inDir, outDir string, s Sched, root string) (r
 	}()
 	// a generator that returns while goroutines it started are still at work: wait for them (they would
 	// otherwise draw from the next run's tape) and note whether they still changed files
+	if verifhook.TasksAlive() == 0 {
+		// tasks that have finished may need a moment to leave their goroutines
+		for i := 0; i < 40 && runtime.NumGoroutine() > goroutinesBefore; i++ {
+			time.Sleep(50 * time.Microsecond)
+		}
+	}
 	if runtime.NumGoroutine() > goroutinesBefore {
 		res.Stragglers = true
 		atReturn := Snapshot(outDir)
